@@ -122,6 +122,7 @@ type Faults struct {
 	CloseErr     bool
 	ReadStall    bool // after a partial delivery the next read with a deadline expires first
 	Damage       int  // crash events damage up to this many records of the snapshot
+	DamageOnce   bool // stops after the first damaged one leave the store as it is
 	BrokerResend bool // the broker retransmits an unacknowledged PUBLISH / repeats PUBREL on the same connection
 	Allow        func(w *World, kind string) bool
 }
@@ -748,7 +749,7 @@ func (w *World) menu() []alt {
 		}
 	}
 	if f.Crash && w.gen < len(w.scn.Gens) && w.allow("crash") {
-		if f.Damage == 0 {
+		if f.Damage == 0 || f.DamageOnce && len(w.damaged) > 0 {
 			menu = append(menu, alt{label: "crash", cost: Cost{C: 1}, do: func() { w.crash(nil) }})
 		} else {
 			ds := w.damages()
